@@ -27,6 +27,26 @@ class FrozenSub(frozenset):
     pass
 
 
+class DictSub2(dict):
+    """same content as DictSub, another type (likewise below)"""
+
+
+class ListSub2(list):
+    pass
+
+
+class TupleSub2(tuple):
+    pass
+
+
+class SetSub2(set):
+    pass
+
+
+class FrozenSub2(frozenset):
+    pass
+
+
 Point = collections.namedtuple("Point", "x y")
 Pair = collections.namedtuple("Pair", "a b")  # same shape, another type
 
